@@ -218,7 +218,7 @@ func toLeaves(v Value) []*Term {
 	case VArr:
 		return x.Leaves
 	case VFunc:
-		if len(x.Binds) == 0 {
+		if len(x.Binds) == 0 && x.St == nil {
 			return []*Term{Const(fnID(x.Fn), 64)}
 		}
 		id := uint64(0x7e00000000000000) + uint64(len(closureTab)+1)
